@@ -602,6 +602,8 @@ def run(tier: str, seed: int, replay=None) -> int:
         "Orm/EqlToSqlSpec.v `answers`: the in-memory meaning of a query under Python comparison semantics, compared with query.evaluate()",
         "harness/c07.py: schema table of the dataset classes, world persistence through to_dao, query builder, outcome canonicaliser",
         "SQLAlchemy + sqlite3 (statement rendering, parameter binding, .one()/.all())",
+        "source pins `eqlsql` (pins/eqlsql.json): the recorded source of the eql_interface.py methods Orm/EqlToSql.v mirrors; an edit to any "
+        "of them reopens the correspondence obligation until the model is re-aligned and the pins re-recorded",
     ]
     rep.assume = ["objects are persisted once through to_dao with one ToDAOState; database_id identifies the object (SymbolDAO key shared by all tables)",
                   "values are ints, ASCII strings, None; floats are not exercised (columns typed float hold ints)",
@@ -618,6 +620,9 @@ def run(tier: str, seed: int, replay=None) -> int:
     ok_spec, log = core.coq_make(["Base/Sx.vo", "Orm/EqlToSqlSpec.vo"])
     rep.oblige("build:spec", ok_spec, "" if ok_spec else core.first_error(log))
     model_ok = core.standard_proof_steps(rep, PROP, ["Props/C07.vo"])
+    # source pins: the methods the hand-written translator model was written against (pins/sets/eqlsql.json)
+    from translator import pins
+    pins.oblige(rep, str(core.REPO), "eqlsql", "the translator model (Orm/EqlToSql.v)")
 
     # ---- cases
     worlds: List[Tuple[List[dict], List[int]]] = []
